@@ -101,6 +101,17 @@ CHECKS = {
              "is the result.  Maximality is not demanded (the statement does not).",
         design_ref="3.10", technique="constant extraction from clang IR + exact rational model + static_assert witness programs",
         note=TRUST_W, engine="W"),
+    "C11": dict(
+        category="exploration",
+        text="(magnitude, type) pairs over primes up to 2^64-59, the bounded rational exponent set, pi, integers max-1 / max / max+1 of every "
+             "integral type and the floating limits (2^emax, smallest normal / denormal, below the denormals, powers of ten around the FLT/DBL "
+             "limits) x 8 integral + 3 floating types: representable_in, get_value_result's outcome and value are extracted from clang's constant "
+             "evaluator and compared with exact integer and 400-bit real arithmetic (integral: exact; floating: strictly positive and within 4 ulp, "
+             "wider tolerance stated for long double); accepted values are re-asserted on g++, refused ones are compile-fail witnesses for "
+             "get_value; is_integer, is_rational, numerator, denominator, integer_part, canonical exponents and equality are asserted per "
+             "magnitude.  These functions are only ever used in constant expressions, so the constant evaluator's answer is their behaviour.",
+        design_ref="3.11", technique="constant extraction from clang IR initialisers + compile-fail witnesses against exact big-number arithmetic",
+        note=TRUST_W, engine="W"),
     "C13": dict(
         category="proof",
         text="(S) AST shape rule on the primary templates au::Quantity / au::QuantityPoint - exactly one non-static data "
